@@ -1274,6 +1274,207 @@ impl Exec {
                     }
                 }
             }
+            // ------------------------------------------------------------------ Drift (stand-in venue, see venue.rs)
+            "add_bank_drift" => {
+                let group = sreq(a, "group")?;
+                let bank = sreq(a, "bank")?;
+                let mname = sreq(a, "market")?.to_string();
+                let mi = self.env.markets.get(&mname).ok_or("no market")?.clone();
+                let mint_name = s(a, "mint").map(|x| x.to_string()).unwrap_or(mi.mint_name.clone());
+                let mint = self.env.mints.get(&mint_name).ok_or("no mint")?.clone();
+                let g = self.group(group)?;
+                let admin = self.admin_signer(a, g.admin);
+                let payer = self.env.wallet("payer");
+                signers.extend([admin, payer]);
+                let gk = self.k(group);
+                let sd = u64o(a, "seed").unwrap_or(0);
+                let bk = Pubkey::find_program_address(&[gk.as_ref(), mint.key.as_ref(), &sd.to_le_bytes()], &marginfi::ID).0;
+                self.env.names.reg(bank, bk);
+                for (nm, seed_s) in [
+                    ("liq", tc::LIQUIDITY_VAULT_SEED),
+                    ("ins", tc::INSURANCE_VAULT_SEED),
+                    ("fee", tc::FEE_VAULT_SEED),
+                    ("liq_auth", tc::LIQUIDITY_VAULT_AUTHORITY_SEED),
+                    ("ins_auth", tc::INSURANCE_VAULT_AUTHORITY_SEED),
+                    ("fee_auth", tc::FEE_VAULT_AUTHORITY_SEED),
+                ] {
+                    self.env.names.reg(&format!("{}.{}", bank, nm), pda(seed_s, &bk));
+                }
+                let lva = pda(tc::LIQUIDITY_VAULT_AUTHORITY_SEED, &bk);
+                let drift = marginfi::constants::DRIFT_PROGRAM_ID;
+                let user = Pubkey::find_program_address(&[b"user", lva.as_ref(), &0u16.to_le_bytes()], &drift).0;
+                let stats = Pubkey::find_program_address(&[b"user_stats", lva.as_ref()], &drift).0;
+                let user = s(a, "user").map(|n| self.k(n)).unwrap_or(user);
+                self.env.names.reg(&format!("{}.duser", bank), user);
+                self.env.names.reg(&format!("{}.dstats", bank), stats);
+                let market_key = s(a, "market_acct").map(|n| self.k(n)).unwrap_or(mi.market);
+                let oracle = self.k(s(a, "oracle").unwrap_or("none"));
+                let cfg = a.get("cfg").cloned().unwrap_or(json!({}));
+                let setup = match u64o(a, "setup").unwrap_or(9) {
+                    10 => OracleSetup::DriftSwitchboardPull,
+                    3 => OracleSetup::PythPushOracle,
+                    _ => OracleSetup::DriftPythPull,
+                };
+                let bank_config = marginfi::state::drift::DriftConfigCompact {
+                    oracle,
+                    asset_weight_init: fxd(&cfg, "aw_init", I80F48::from_num(0.8)),
+                    asset_weight_maint: fxd(&cfg, "aw_maint", I80F48::from_num(0.9)),
+                    deposit_limit: u64o(&cfg, "deposit_limit").unwrap_or(u64::MAX),
+                    oracle_setup: setup,
+                    operational_state: op_state(u64o(&cfg, "op_state").unwrap_or(1)),
+                    risk_tier: risk_tier(u64o(&cfg, "risk_tier").unwrap_or(0)),
+                    config_flags: 1,
+                    total_asset_value_init_limit: u64o(&cfg, "init_limit").unwrap_or(0),
+                    oracle_max_age: u64o(&cfg, "oracle_max_age").unwrap_or(100) as u16,
+                    oracle_max_confidence: u64o(&cfg, "oracle_max_conf").unwrap_or(0) as u32,
+                };
+                let mut m = ac::LendingPoolAddBankDrift {
+                    group: gk,
+                    admin,
+                    fee_payer: payer,
+                    bank_mint: mint.key,
+                    bank: bk,
+                    integration_acc_1: market_key,
+                    integration_acc_2: user,
+                    integration_acc_3: stats,
+                    liquidity_vault_authority: lva,
+                    liquidity_vault: pda(tc::LIQUIDITY_VAULT_SEED, &bk),
+                    insurance_vault_authority: pda(tc::INSURANCE_VAULT_AUTHORITY_SEED, &bk),
+                    insurance_vault: pda(tc::INSURANCE_VAULT_SEED, &bk),
+                    fee_vault_authority: pda(tc::FEE_VAULT_AUTHORITY_SEED, &bk),
+                    fee_vault: pda(tc::FEE_VAULT_SEED, &bk),
+                    token_program: mint.program,
+                    system_program: system_program::ID,
+                }
+                .to_account_metas(None);
+                m.push(AccountMeta::new_readonly(oracle, false));
+                m.push(AccountMeta::new_readonly(market_key, false));
+                (m, ix::LendingPoolAddBankDrift { bank_config, bank_seed: sd }.data())
+            }
+            "drift_init_user" | "drift_deposit" | "drift_withdraw" => {
+                let bank = sreq(a, "bank")?;
+                let b = self.bank(bank)?;
+                let bk = self.k(bank);
+                let mname = self.env.names.name(&b.integration_acc_1);
+                let mi = self.env.markets.get(&mname).ok_or("bank has no known drift market")?.clone();
+                let mint = self.env.mint_by_key(&b.mint).cloned().ok_or("no mint")?;
+                let mint_name = self.env.names.name(&mint.key);
+                let lva = pda(tc::LIQUIDITY_VAULT_AUTHORITY_SEED, &bk);
+                let drift = marginfi::constants::DRIFT_PROGRAM_ID;
+                let state = self.k("drift.state");
+                let market = s(a, "market_acct").map(|n| self.k(n)).unwrap_or(b.integration_acc_1);
+                let user = s(a, "user").map(|n| self.k(n)).unwrap_or(b.integration_acc_2);
+                let stats = s(a, "stats").map(|n| self.k(n)).unwrap_or(b.integration_acc_3);
+                let vault = s(a, "market_vault").map(|n| self.k(n)).unwrap_or(mi.vault);
+                let doracle = s(a, "drift_oracle").map(|n| self.k(n));
+                let amount = u64f(a, "amount")?;
+                if op == "drift_init_user" {
+                    let payer_name = s(a, "signer").unwrap_or("payer").to_string();
+                    let payer = self.env.wallet(&payer_name);
+                    signers.push(payer);
+                    let src = self.user_tok(&payer_name, &mint_name);
+                    (
+                        ac::DriftInitUser {
+                            fee_payer: payer,
+                            signer_token_account: src,
+                            bank: bk,
+                            liquidity_vault_authority: lva,
+                            liquidity_vault: b.liquidity_vault,
+                            mint: mint.key,
+                            integration_acc_3: stats,
+                            integration_acc_2: user,
+                            drift_state: state,
+                            integration_acc_1: market,
+                            drift_spot_market_vault: vault,
+                            drift_oracle: doracle,
+                            drift_program: drift,
+                            token_program: mint.program,
+                            rent: solana_program::sysvar::rent::ID,
+                            system_program: system_program::ID,
+                        }
+                        .to_account_metas(None),
+                        ix::DriftInitUser { amount }.data(),
+                    )
+                } else {
+                    let acct = sreq(a, "acct")?;
+                    let auth = self.authority_of(acct, a)?;
+                    let auth_name = self.env.names.name(&auth);
+                    signers.push(auth);
+                    let tok = match s(a, if op == "drift_deposit" { "src" } else { "dst" }) {
+                        Some(n) => self.k(n),
+                        None => self.user_tok(&auth_name, &mint_name),
+                    };
+                    if op == "drift_deposit" {
+                        let m = ac::DriftDeposit {
+                            group: b.group,
+                            marginfi_account: self.k(acct),
+                            authority: auth,
+                            bank: bk,
+                            drift_oracle: doracle,
+                            liquidity_vault_authority: lva,
+                            liquidity_vault: b.liquidity_vault,
+                            signer_token_account: tok,
+                            drift_state: state,
+                            integration_acc_2: user,
+                            integration_acc_3: stats,
+                            integration_acc_1: market,
+                            drift_spot_market_vault: vault,
+                            mint: mint.key,
+                            drift_program: drift,
+                            token_program: mint.program,
+                            system_program: system_program::ID,
+                        }
+                        .to_account_metas(None);
+                        ctx.add.entry(acct.into()).or_default().insert(bk);
+                        (m, ix::DriftDeposit { amount }.data())
+                    } else {
+                        let all = boolo(a, "all");
+                        let (dsigner, _) = crate::venue::drift::signer_pda();
+                        let mut m = ac::DriftWithdraw {
+                            group: b.group,
+                            marginfi_account: self.k(acct),
+                            authority: auth,
+                            bank: bk,
+                            drift_oracle: doracle,
+                            liquidity_vault_authority: lva,
+                            liquidity_vault: b.liquidity_vault,
+                            destination_token_account: tok,
+                            drift_state: state,
+                            integration_acc_2: user,
+                            integration_acc_3: stats,
+                            integration_acc_1: market,
+                            drift_spot_market_vault: vault,
+                            drift_reward_oracle: None,
+                            drift_reward_spot_market: None,
+                            drift_reward_mint: None,
+                            drift_reward_oracle_2: None,
+                            drift_reward_spot_market_2: None,
+                            drift_reward_mint_2: None,
+                            drift_signer: dsigner,
+                            mint: mint.key,
+                            drift_program: drift,
+                            token_program: mint.program,
+                            system_program: system_program::ID,
+                        }
+                        .to_account_metas(None);
+                        let rm: Vec<Pubkey> = if all == Some(true) { vec![bk] } else { vec![] };
+                        m.extend(self.risk_metas(acct, &[], &rm, ctx, a)?);
+                        if all == Some(true) {
+                            ctx.rm.entry(acct.into()).or_default().insert(bk);
+                        }
+                        (m, ix::DriftWithdraw { amount, withdraw_all: all }.data())
+                    }
+                }
+            }
+            "drift_refresh" => {
+                // the venue's own interest update as a top-level instruction
+                let mname = sreq(a, "market")?.to_string();
+                let mi = self.env.markets.get(&mname).ok_or("no market")?.clone();
+                let data = solana_program::hash::hash(b"global:update_spot_market_cumulative_interest").to_bytes()[..8].to_vec();
+                let state = self.k("drift.state");
+                let m = vec![AccountMeta::new_readonly(state, false), AccountMeta::new(mi.market, false), AccountMeta::new_readonly(system_program::ID, false), AccountMeta::new_readonly(mi.vault, false)];
+                return Ok((Instruction { program_id: marginfi::constants::DRIFT_PROGRAM_ID, accounts: m, data }, vec![]));
+            }
             "kamino_refresh" => {
                 // the venue's own refresh_reserve as a top-level instruction (users bundle it before marginfi instructions)
                 let rname = sreq(a, "reserve")?.to_string();
@@ -1750,6 +1951,36 @@ impl Exec {
                     self.env.world.clock.unix_timestamp = t as i64;
                 }
             }
+            "add_drift_market" => {
+                let name = s(a, "market").unwrap_or("DM1").to_string();
+                let mint = s(a, "mint").unwrap_or("M1").to_string();
+                let cum = a.get("cum").and_then(parse_i128).unwrap_or(10_000_000_000) as u128;
+                self.env.add_drift_market(&name, &mint, u64o(a, "index").unwrap_or(1) as u16, cum);
+            }
+            "set_drift_market" => {
+                let name = s(a, "market").unwrap_or("DM1").to_string();
+                let cum = a.get("cum").and_then(parse_i128);
+                let ts = a.get("ts").and_then(parse_i128);
+                let refresh = boolo(a, "refresh") == Some(true);
+                let now = self.env.world.clock.unix_timestamp as u64;
+                self.env.set_drift_market(&name, &|m| {
+                    if let Some(c) = cum {
+                        m.cumulative_deposit_interest = (c as u128).to_le_bytes();
+                    }
+                    if let Some(t) = ts {
+                        m.last_interest_ts = t as u64;
+                    }
+                    if refresh {
+                        m.last_interest_ts = now;
+                    }
+                });
+                // interest paid by the venue's borrowers arrives in the venue's vault
+                if let Some(x) = u64o(a, "vault_add") {
+                    if let Some(mi) = self.env.markets.get(&name).cloned() {
+                        self.env.mint_to(&mi.mint_name, mi.vault, x);
+                    }
+                }
+            }
             "add_kamino_reserve" => {
                 let name = s(a, "reserve").unwrap_or("KR1").to_string();
                 let mint = s(a, "mint").unwrap_or("M1").to_string();
@@ -1872,7 +2103,13 @@ impl Exec {
             Err((c, l, i)) => ("err", *c, l.clone(), *i),
         };
         let err = if r == "ok" { "".to_string() } else { err_name(code, &label) };
-        let amt = a.get("amount").and_then(parse_i128).unwrap_or(0);
+        // (a transaction carries the amount of its last instruction: transactions that only refresh venue state
+        //  before one financial instruction are judged as that instruction, see Eff in Base.tla)
+        let amt = if op == "tx" {
+            a.get("ixs").and_then(|x| x.as_array()).and_then(|x| x.last()).and_then(|x| x.get("amount")).and_then(parse_i128).unwrap_or(0)
+        } else {
+            a.get("amount").and_then(parse_i128).unwrap_or(0)
+        };
         json!({"i": self.n, "ev": op, "a": a, "amt": big_i(amt), "out": out_val, "res": r, "code": code, "err": err, "label": label, "failed_ix": fidx,
                "ts": big_i(self.env.world.clock.unix_timestamp as i128), "chg": chg})
     }
